@@ -28,6 +28,8 @@ def cases(tier, seed):
         out.append(dict(src=s, family="subroutine-argument-shapes"))
     for s in gen.modifier_cases(rnd)[:: (8 if tier == "quick" else 1)]:
         out.append(dict(src=s, family="modifiers"))
+    for s in gen.repo_test_programs():
+        out.append(dict(src=s, family="programs-of-the-repository-test-suite"))
     for s in gen.folded_value_cases()[:: (2 if tier == "quick" else 1)]:
         out.append(dict(src=s, family="values-through-initialisers-booleans-and-array-elements"))
     return out
